@@ -187,12 +187,40 @@ func (h *H) emitDecSeq(seq ansi.Sequence, spec string, class string, keep bool) 
 	}
 }
 
+// matchesVariadic: Matches takes its modifiers as a variadic list and ORs them; the model takes one mask. Every way of
+// passing the mask m must give the same answer: as one argument, not at all (m == 0), split into two halves, bit by bit.
+func matchesVariadic(k vaxis.Key, b rune, m int) (bool, bool) {
+	got := k.Matches(b, vaxis.ModifierMask(m))
+	same := true
+	if m == 0 && k.Matches(b) != got {
+		same = false
+	}
+	if k.Matches(b, vaxis.ModifierMask(m&0x0F), vaxis.ModifierMask(m&^0x0F)) != got {
+		same = false
+	}
+	var bits []vaxis.ModifierMask
+	for i := 0; i < 12; i++ {
+		if m&(1<<i) != 0 {
+			bits = append(bits, vaxis.ModifierMask(1<<i))
+		}
+	}
+	if k.Matches(b, bits...) != got {
+		same = false
+	}
+	return got, same
+}
+
 func (h *H) emitMat(k vaxis.Key, b rune, m int, class string) {
 	var got bool
-	p, _ := hx.Guard(func() { got = k.Matches(b, vaxis.ModifierMask(m)) })
+	same := true
+	p, _ := hx.Guard(func() { got, same = matchesVariadic(k, b, m) })
 	res := "0"
 	if got {
 		res = "1"
+	}
+	if !same {
+		res = "variadic-call-differs"
+		h.r.Count("mat:variadic-call-differs")
 	}
 	if p {
 		res = "panic"
